@@ -104,13 +104,18 @@ def run_hard(case, res, reuse=None, rng=None):
         tiny = 0
         tiny_scale = rng.choice([1e-9, 1e-9, 1e-14, 1e-30])
         for t in names:
+            done = set()
             for k in list(T[t]):
+                half = len(k) // 2
+                mirror = k[half:] + k[:half]
+                if k in done:
+                    continue           # a pairing and its mirror image are ONE weight: scaled once (twice would be 1e-60, where the
+                done.update((k, mirror))   # product over a 4-clique's corner underflows to 0.0 - no longer a positive weight at all)
                 if T[t][k] > 0 and present[t].get(k, 0) > 0 and rng.random() < 0.6:
-                    half = len(k) // 2
                     w = T[t][k] * tiny_scale
                     T[t][k] = w
-                    if k[half:] + k[:half] in T[t]:
-                        T[t][k[half:] + k[:half]] = w
+                    if mirror in T[t]:
+                        T[t][mirror] = w
                     tiny += 1
         if tiny:
             res.count("targets_with_tiny_positive_weights")
